@@ -2,6 +2,7 @@ global size_of usize == 8;
 
 // ---- payload types the VM helpers treat as opaque (parametric in them) ----
 #[verifier::external_body] pub struct Array { _p: () }
+impl Array { pub uninterp spec fn view(&self) -> Seq<Rc<Object>>; }
 #[verifier::external_body] pub struct HMap { _p: () }
 #[verifier::external_body] pub struct FileHandle { _p: () }
 #[verifier::external_body] pub struct ErrorObj { _p: () }
@@ -13,7 +14,11 @@ global size_of usize == 8;
 #[verifier::external_body] pub struct Ipv6Packet { _p: () }
 #[verifier::external_body] pub struct Udp { _p: () }
 #[verifier::external_body] pub struct Tcp { _p: () }
-#[verifier::external_body] pub struct BuiltinFunction { _p: () }
+// R7: fn-pointer field replaced by a tag; the indirect call goes through call_builtin_fn below
+pub struct BuiltinFnId(pub usize);
+pub struct BuiltinFunction { pub name: &'static str, pub func: BuiltinFnId }
+impl Clone for BuiltinFnId { fn clone(&self) -> Self { BuiltinFnId(self.0) } }
+impl Copy for BuiltinFnId {}
 
 pub const STACK_SIZE: usize = 4096;
 pub const MAX_FRAMES: usize = 4096;
@@ -55,3 +60,72 @@ pub fn rc_null() -> (r: Rc<Object>)
 
 #[verifier::external_body]
 pub fn fmt_any() -> (r: String) { String::new() }
+
+// arbitrary builtin: any result (the builtins' own contracts are in the builtins units)
+#[verifier::external_body]
+pub fn call_builtin_fn(f: BuiltinFnId, args: Vec<Rc<Object>>) -> (r: Result<Rc<Object>, String>) { unimplemented!() }
+
+#[verifier::external_body]
+pub fn slice_to_vec(v: &Vec<Rc<Object>>, a: usize, b: usize) -> (r: Vec<Rc<Object>>)
+    requires a <= b <= v@.len()
+    ensures r@ =~= v@.subrange(a as int, b as int)
+{ v[a..b].to_vec() }
+
+// ---- C09 operator dispatch ----
+// R7: the closures passed by the VM arms, identified by their text (see the vmarms unit table)
+pub enum OpId { Add, Sub, Mul, Div, Mod, Gt, Ge, BitAnd, BitOr, BitXor, Shl, Shr }
+
+pub open spec fn op_matches(t: BinaryOperation, op: OpId) -> bool {
+    match t {
+        BinaryOperation::Add => op is Add,
+        BinaryOperation::Sub => op is Sub,
+        BinaryOperation::Mul => op is Mul,
+        BinaryOperation::Div => op is Div,
+        BinaryOperation::Mod => op is Mod,
+        BinaryOperation::Relational => op is Gt || op is Ge,
+    }
+}
+pub open spec fn op_is_bitwise(op: OpId) -> bool { op is BitAnd || op is BitOr || op is BitXor || op is Shl || op is Shr }
+
+pub open spec fn is_num(o: Object) -> bool { o is Integer || o is Float || o is Byte }
+pub uninterp spec fn f64_zero(f: f64) -> bool;
+pub open spec fn is_zero_spec(o: Object) -> bool {
+    match o { Object::Integer(n) => n == 0, Object::Float(f) => f64_zero(f), Object::Byte(b) => b == 0, _ => false }
+}
+#[verifier::external_body]
+pub fn f64_is_zero(f: f64) -> (r: bool) ensures r == f64_zero(f) { f == 0. }
+
+// the domain on which the operator closures are panic-free (ops Kani harnesses c09_*_model):
+// arithmetic on numeric pairs with a non-zero divisor for / and %; > and >= on anything
+// (partial_cmp never panics); bitwise operators on two integers
+pub open spec fn op_defined(op: OpId, a: Object, b: Object) -> bool {
+    match op {
+        OpId::Gt | OpId::Ge => true,
+        OpId::Add | OpId::Sub | OpId::Mul => is_num(a) && is_num(b),
+        OpId::Div | OpId::Mod => is_num(a) && is_num(b) && !is_zero_spec(b),
+        _ => a is Integer && b is Integer,
+    }
+}
+#[verifier::external_body]
+pub fn apply_op(op: OpId, a: &Object, b: &Object) -> (r: Object)
+    requires op_defined(op, *a, *b)
+{ unimplemented!() }
+
+// the operator x operand-kind table of C09 (every other combination must be a runtime error)
+pub open spec fn op_table(t: BinaryOperation, l: Object, r: Object) -> bool {
+    ||| (is_num(l) && is_num(r) && !((t is Div || t is Mod) && is_zero_spec(r)))
+    ||| (l is Str && r is Str && (t is Add || t is Relational))
+    ||| (l is Char && r is Char && (t is Add || t is Relational))
+    ||| (l is Str && (r matches Object::Integer(n) && n >= 0) && t is Mul)
+    ||| ((l matches Object::Integer(n) && n >= 0) && r is Str && t is Mul)
+    ||| (l is Arr && r is Arr && t is Add)
+}
+
+#[verifier::external_body]
+pub fn str_repeat(s: &String, n: usize) -> (r: String)
+    requires n <= 0x7fff_ffff_ffff_ffff
+{ s.repeat(n) }
+#[verifier::external_body]
+pub fn array_elements(a: &Rc<Array>) -> (r: Vec<Rc<Object>>) ensures r@ == a@ { unimplemented!() }
+#[verifier::external_body]
+pub fn array_new(v: Vec<Rc<Object>>) -> (r: Array) ensures r@ == v@ { unimplemented!() }
